@@ -104,7 +104,7 @@ static void start_watchdog() {
             std::this_thread::sleep_for(std::chrono::milliseconds(50));
             long long d = g_deadline.load();
             if (d && now_ms() > d) {
-                std::fprintf(stderr, "watchdog: operation did not return within 5 s (blocked on the queue lock?)\n");
+                std::fprintf(stderr, "watchdog: operation did not return within 3 s (blocked on the queue lock?)\n");
                 std::fflush(stdout);
                 _exit(3);
             }
@@ -112,7 +112,7 @@ static void start_watchdog() {
     }).detach();
 }
 struct Armed {
-    Armed() { g_deadline.store(now_ms() + 5000); }
+    Armed() { g_deadline.store(now_ms() + 3000); }
     ~Armed() { g_deadline.store(0); }
 };
 
@@ -260,6 +260,98 @@ static void run_limited(const vh::Case &cs) {
     q.reset();
 }
 
+// =============================== qcb ===============================
+// callback consumers: call_fn_future_awaiter whose completion callback records the outcome and asks for the next item
+// from inside the callback (op `6 k`: k re-pops).  Future ids are the global pop() call counter (plain and callback pops).
+struct CbCtx {
+    std::unique_ptr<queue<int>> q;
+    long next_id = 0;
+    std::map<long, std::array<long, 3>> changed;
+    std::set<long> resolved;
+};
+class cb_consumer {
+public:
+    cb_consumer(CbCtx &c, long budget) : _c(c), _budget(budget), _awt(*this) {}
+    long start() {
+        long id = _c.next_id++;
+        _cur = id;
+        _awt << [&] { return _c.q->pop(); };
+        if (!_c.resolved.count(id)) _c.changed[id] = {0, -2, 0};
+        return id;
+    }
+
+protected:
+    suspend_point<void> on_item(future<int> &f) noexcept {
+        auto st = read_state(f);
+        _c.changed[_cur] = st;
+        _c.resolved.insert(_cur);
+        if (st[1] == -1) return {};   // queue destroyed
+        if (_budget > 0) {
+            _budget--;
+            start();                  // ask for the next item from inside the completion callback
+        }
+        return {};
+    }
+    CbCtx &_c;
+    long _budget;
+    long _cur = -1;
+    call_fn_future_awaiter<&cb_consumer::on_item> _awt;
+};
+
+static void run_callback(const vh::Case &cs) {
+    start_watchdog();
+    CbCtx c;
+    c.q = std::make_unique<queue<int>>();
+    std::vector<std::unique_ptr<cb_consumer>> consumers;
+    std::map<long, std::unique_ptr<Slot<future<int>>>> plain;
+    std::map<long, std::array<long, 3>> last;
+    for (auto &op : cs.ops) {
+        if (!c.q || op.empty()) { reject(); continue; }
+        long ret = 0;
+        size_t want = 0;
+        switch (op[0]) {
+            case 1: case 3: case 6: want = 2; break;
+            case 2: case 4: case 5: want = 1; break;
+            default: want = 0;
+        }
+        if (want == 0 || op.size() != want || (op[0] == 6 && op[1] < 0)) { reject(); continue; }
+        Armed armed;
+        switch (op[0]) {
+            case 1: { auto sp = c.q->push((int)op[1]); ret = (bool)sp; break; }
+            case 2: {
+                long id = c.next_id++;
+                plain[id] = std::make_unique<Slot<future<int>>>([&] { return c.q->pop(); });
+                ret = id;
+                break;
+            }
+            case 3: { auto sp = c.q->unblock_pop(exc(op[1])); ret = (bool)sp; break; }
+            case 4: break;
+            case 5: c.q.reset(); break;
+            case 6: {
+                consumers.push_back(std::make_unique<cb_consumer>(c, op[1]));
+                ret = consumers.back()->start();
+                break;
+            }
+        }
+        for (auto &pr : plain) {
+            auto st = read_state(pr.second->f);
+            auto it = last.find(pr.first);
+            if (it == last.end() || it->second != st) c.changed[pr.first] = st;
+            last[pr.first] = st;
+        }
+        std::vector<long> o{0, ret, c.q ? (long)c.q->size() : 0, c.q ? (long)c.q->empty() : 1};
+        for (auto &ch : c.changed) {
+            o.push_back(ch.first);
+            o.insert(o.end(), ch.second.begin(), ch.second.end());
+        }
+        c.changed.clear();
+        vh::print_obs(o);
+    }
+    c.q.reset();
+    plain.clear();
+    consumers.clear();
+}
+
 // =============================== q2 ===============================
 struct Gate {
     std::mutex m;
@@ -379,6 +471,7 @@ int main(int argc, char **argv) {
         else if (cs.engine == "qc") run_coro(cs);
         else if (cs.engine == "lq") run_limited(cs);
         else if (cs.engine == "q2") run_two_phase(cs);
+        else if (cs.engine == "qcb") run_callback(cs);
         std::printf("END\n");
         std::fflush(stdout);
     }
